@@ -169,6 +169,28 @@ func fsRequests(quick bool) []harness.Req {
 			}
 		}
 	}
+	// conditional and range reads: HEAD is judged against GET (relational), GET by the status set
+	for _, p := range []string{"/a", "/b.html", "/a/a", "/a/b.html"} {
+		for _, m := range []string{"GET", "HEAD"} {
+			out = append(out, harness.Req{Method: m, Path: p, Header: map[string]string{"If-None-Match": "*"}},
+				harness.Req{Method: m, Path: p, Header: map[string]string{"Range": "bytes=0-0"}},
+				harness.Req{Method: m, Path: p, Header: map[string]string{"If-Modified-Since": "Sun, 06 Nov 2033 08:49:37 GMT"}})
+		}
+	}
+	// COPY / MOVE whose Destination reaches its target through dot segments
+	for _, m := range []string{"COPY", "MOVE"} {
+		for _, src := range []string{"/a", "/b.html", "/a/a"} {
+			for _, dst := range []string{"/a", "/b.html", "/a/a", "/"} {
+				spell := []string{"/zz/.." + dst, "/." + dst}
+				if dst != "/" {
+					spell = append(spell, dst+"/.", "/a/.."+dst)
+				}
+				for _, d := range spell {
+					out = append(out, harness.Req{Method: m, Path: src, Header: map[string]string{"Destination": d}})
+				}
+			}
+		}
+	}
 	// the served directory itself, in every spelling that cleans to it, is never deleted
 	for _, p := range []string{"/", "//", "/.", "/./", "/a/..", "/a/../", "/b.html/../."} {
 		out = append(out, harness.Req{Method: "DELETE", Path: p, Raw: true})
@@ -246,6 +268,8 @@ type fsVisit struct {
 	Probe    map[string]fileProbe
 	Changed  bool // on-disk fingerprint (incl. mtimes) changed
 	Spell    int  // how the root was spelled when configuring the file system (fsRootSpellings)
+	// Serve executes a further (read-only) request in the same state, for relational oracles
+	Serve func(q harness.Req) harness.Resp
 }
 
 type fsWorker struct {
@@ -418,7 +442,8 @@ func exploreFSspell(r *engine.Run, states []harness.Tree, reqs []harness.Req, ex
 				idx |= 1 << 23
 			}
 			visit(&fsVisit{S: s, Index: idx, State: states[si], Req: list[ri], Resp: resp, After: after,
-				Root: w.root, RootReal: w.rootReal, Probe: w.probe, Changed: changed, Spell: spell})
+				Root: w.root, RootReal: w.rootReal, Probe: w.probe, Changed: changed, Spell: spell,
+				Serve: func(q harness.Req) harness.Resp { return harness.Serve(w.handler, q) }})
 		}
 	})
 	close(workers)
@@ -442,7 +467,8 @@ func fsReplay(c fsCase) *fsVisit {
 	w.load(c.State)
 	s := engine.NewRun("replay", "quick").Shard()
 	resp, after, changed := w.step(c.Req)
-	return &fsVisit{S: s, State: c.State, Req: c.Req, Resp: resp, After: after, Root: w.root, RootReal: w.rootReal, Probe: w.probe, Changed: changed, Spell: c.Spell}
+	return &fsVisit{S: s, State: c.State, Req: c.Req, Resp: resp, After: after, Root: w.root, RootReal: w.rootReal, Probe: w.probe, Changed: changed, Spell: c.Spell,
+		Serve: func(q harness.Req) harness.Resp { return harness.Serve(w.handler, q) }}
 }
 
 func commaSet(vals []string) map[string]bool {
